@@ -332,6 +332,140 @@ def pointwise_rules(rep, model):
     rep.floor('R4L', 'pointwise evaluations', n, 40)
 
 
+def pspace_scalar_rules(rep, model):
+    """R4p: `ProductSpace._lincomb` hands the scalars to the `_lincomb` of
+    every component as it received them (complex scalars on spaces over C,
+    Python integers on integer spaces): opaque scalar tokens must arrive
+    unconverted, with the parts of x, y and out in their roles."""
+    from ..symex import Interp, Hooks
+    PSF = 'odl/space/pspace.py'
+    ci = model.get('ProductSpace')
+    if ci is None or '_lincomb' not in ci.methods:
+        raise AnalysisError('anchor vanished: ProductSpace._lincomb')
+    fn = ci.methods['_lincomb']
+
+    class PH(Hooks):
+        def __init__(self):
+            self.calls = []
+            self.conv = []
+
+        def on_getattr(self, interp, obj, name):
+            if isinstance(obj, Rec) and name in obj.attrs:
+                return obj.attrs[name]
+            if isinstance(obj, Inst) and obj.ci.name == 'ProductSpace' and \
+                    name == 'spaces':
+                return spaces
+            return NotImplemented
+
+        def on_name(self, interp, name):
+            if name in ('float', 'complex', 'int', 'abs'):
+                def conv(v=0, *a):
+                    if isinstance(v, Rec) and v.kind == 'scalar':
+                        self.conv.append('%s(%s)' % (name, v.attrs['name']))
+                        return Rec('scalar', name='%s(%s)' % (
+                            name, v.attrs['name']))
+                    raise Undecided('%s(%r)' % (name, v))
+                return Builtin(name, conv)
+            return NotImplemented
+    cons = 'ProductSpace._lincomb'
+    try:
+        H = PH()
+        I = Interp(model, {}, H)
+        spaces = []
+        for k in range(2):
+            spaces.append(Rec('part', _lincomb=Builtin(
+                '_lincomb', lambda *a, k=k: H.calls.append((k,) + a))))
+        spaces = tuple(spaces)
+        a, b = Rec('scalar', name='a'), Rec('scalar', name='b')
+
+        def elem(nm):
+            return Rec('element', name=nm, parts=tuple(
+                Rec('part_elem', name='%s%d' % (nm, k)) for k in range(2)))
+        x, y, out = elem('x'), elem('y'), elem('out')
+        I.call_func(Func(fn, I.env_of(PSF), ci), [Inst(ci), a, x, b, y, out],
+                    {})
+        probs = []
+        if H.conv:
+            probs.append('the scalars are converted: %s' % ', '.join(H.conv))
+        if len(H.calls) != 2:
+            probs.append('%d component calls for 2 parts' % len(H.calls))
+        for k, ga, gx, gb, gy, go in H.calls:
+            if ga is not a or gb is not b:
+                probs.append('component %d receives the scalars %r, %r'
+                             % (k, getattr(ga, 'attrs', ga),
+                                getattr(gb, 'attrs', gb)))
+            if gx is not x.attrs['parts'][k] or gy is not y.attrs['parts'][
+                    k] or go is not out.attrs['parts'][k]:
+                probs.append('component %d receives parts in other roles'
+                             % k)
+        if probs:
+            rep.violation('R4p', cons, '; '.join(probs[:3]), PSF, fn.lineno)
+        else:
+            rep.holds('R4p', cons, 'scalars and parts reach every component '
+                      'unconverted')
+    except Undecided as e:
+        rep.undecided('R4p', cons, str(e), PSF, fn.lineno)
+    except PyRaise as e:
+        rep.violation('R4p', cons, 'raises %s' % e.name, PSF, fn.lineno)
+
+
+def size_rules(rep, model):
+    """R6s: the entry count `TensorSpace.size` that `_lincomb_impl` hands to
+    BLAS as the vector length equals the product of `TensorSpace.shape`, for
+    plain data types and for data types with a shape (whose extra axes are
+    part of the shape); `ndim` is the length of the shape.  The real
+    `__init__` and properties are interpreted."""
+    from ..symex import Interp
+    from ..namodel import NAHooks, NAMixin, DT as _DT
+    BT = 'odl/space/base_tensors.py'
+    ci = model.get('TensorSpace')
+    if ci is None or 'size' not in ci.methods or 'shape' not in ci.methods:
+        raise AnalysisError('anchor vanished: TensorSpace.size / shape')
+    fn = ci.methods['size']
+
+    class NI(NAMixin, Interp):
+        pass
+    n = 0
+    for shape, dt in (((3,), 'float64'), ((3, 2), 'complex128'),
+                      ((3, 2), ('float64', (2,))),
+                      ((5,), ('complex128', (2, 3))),
+                      ((4, 1, 2), ('float32', (3,))), ((), 'float64'),
+                      ((0, 3), 'float64')):
+        n += 1
+        cons = 'TensorSpace.size[shape=%r, dtype=%r]' % (shape, dt)
+        try:
+            I = NI(model, {}, NAHooks())
+            sp = I.instantiate(ci, [shape, _DT(dt) if isinstance(dt, str)
+                                    else _DT((dt[0], dt[1]))], {})
+            shp = tuple(int(to_rat(v).constant())
+                        for v in I.getattr_value(sp, 'shape'))
+            size = to_rat(I.getattr_value(sp, 'size'))
+            ndim = to_rat(I.getattr_value(sp, 'ndim'))
+            want_shape = (tuple(dt[1]) if not isinstance(dt, str) else ()) \
+                + tuple(shape)
+            want = 0 if want_shape == () else 1
+            for k in want_shape:
+                want *= k
+            probs = []
+            if shp != want_shape:
+                probs.append('shape is %r, expected %r' % (shp, want_shape))
+            if not (size - want).is_zero():
+                probs.append('size is %r, the shape %r has %d entries'
+                             % (size, shp, want))
+            if not (ndim - len(want_shape)).is_zero():
+                probs.append('ndim is %r for the shape %r' % (ndim, shp))
+            if probs:
+                rep.violation('R6s', cons, '; '.join(probs), BT, fn.lineno)
+            else:
+                rep.holds('R6s', cons, 'size %d = product of the shape %r'
+                          % (want, shp))
+        except Undecided as e:
+            rep.undecided('R6s', cons, str(e), BT, fn.lineno)
+        except PyRaise as e:
+            rep.violation('R6s', cons, 'raises %s' % e.name, BT, fn.lineno)
+    rep.floor('R6s', 'size evaluations', n, 7)
+
+
 def scalar_type_rules(rep, model):
     """R4t: `LinearSpace.lincomb` hands Python integer scalars to the
     back-end `_lincomb` as integers (integer tensor spaces live over the
